@@ -196,6 +196,22 @@ pub fn probes(tier: &str) -> Vec<Probe> {
             }
         }
     }
+    // coordinates that are exactly corners / edge midpoints of cells (as the boundary call returns them),
+    // at every supported resolution: valid inputs that must be answered
+    {
+        let mut pts: Vec<(f64, f64)> = Vec::new();
+        let cells: Vec<u64> = (2..=6).flat_map(|r| rc::all_cells(r).into_iter().step_by(if tier == "quick" { 211 } else { 37 })).collect();
+        for c in cells {
+            if let Ok(ring) = subj::boundary(c, false, Some(2)) {
+                pts.extend(ring);
+            }
+        }
+        for (lon, lat) in pts {
+            for r in 0..=29 {
+                p.push(Probe::Lookup(lon, lat, r));
+            }
+        }
+    }
     for &r in &ress {
         p.push(Probe::NumCells(r));
         p.push(Probe::CellArea(r));
